@@ -137,10 +137,10 @@ Definition send_forward (st : pc) (m : rmsg) : pc * list emit :=
       let nb := rewrite_acks rev ids in
       match nb with
       | [] =>
-          (* _rewrite_packet_ack returned False: message["Packets"] is left as it was *)
+          (* _rewrite_packet_ack installed the (empty) filtered block list and returned False *)
           match acks' with
           | [] => (st1, [])                          (* prepare_message returns False: not sent *)
-          | _ => (st1, [mkE d w (r_rel m) (r_resent m) acks' (PacketAck ids) false])
+          | _ => (st1, [mkE d w (r_rel m) (r_resent m) acks' (PacketAck []) false])
           end
       | _ => (st1, [mkE d w (r_rel m) (r_resent m) acks' (PacketAck nb) false])
       end
